@@ -781,3 +781,33 @@ def shared_tables_handed_to_constructors(program, f, adopting):
                 if isinstance(root, ast.Name) and root.id not in locals_ and root.id not in ("self", "cls") and (root.id in f.module.assigns or root.id in f.module.imports) and not isinstance(arg, ast.Call):
                     out.append((n, c, p, ast.unparse(arg)))
     return out
+
+
+def _method_calls(fn):
+    return {n.func.attr for n in ast.walk(fn) if isinstance(n, ast.Call) and isinstance(n.func, ast.Attribute)}
+
+
+def bypassed_overrides(program, fn, ref_fn, is_reviewed):
+    """[(old method, new method, base class, subclass)]: a function that used to call x.M(..) and now calls x.N(..) instead, where N
+    is a method added since the review to a class B that also defines M, and a subclass S of B overrides M but not N: for objects
+    of S the call no longer reaches S's version of the behaviour (the override and its base have drifted apart)"""
+    out = []
+    if ref_fn is None:
+        return out
+    before, now = _method_calls(ref_fn), _method_calls(fn)
+    dropped, added = before - now, now - before
+    if not dropped or not added:
+        return out
+    recv = lambda f_, name: {ast.unparse(n.func.value) for n in ast.walk(f_) if isinstance(n, ast.Call) and isinstance(n.func, ast.Attribute) and n.func.attr == name}
+    for c in program.classes.values():
+        for N in sorted(added & set(c.methods)):
+            if is_reviewed(c.methods[N]):
+                continue
+            for M in sorted(dropped & set(c.methods)):
+                # the same receiver is asked N where it was asked M, and N does not itself go through M
+                if not (recv(ref_fn, M) & recv(fn, N)) or M in _method_calls(c.methods[N].node):
+                    continue
+                for S in program.subclasses(c):
+                    if M in S.methods and N not in S.methods and not any(N in k.methods for k in program.mro(S) if k is not c and c in program.mro(k)):
+                        out.append((M, N, c, S))
+    return out
